@@ -257,6 +257,13 @@ def subprocess_validation(run, t):
             ok = p.returncode == 0 and logged == api and found == (1 if api else 0) and notfound == (0 if api else 1)
             if not ok:
                 run.failure("cli/SUBPROCESS", f"argv={argv[2:]} rc={p.returncode} logged={logged} api={api} found={found} notfound={notfound}", {"kind": "cli", "argv": argv[2:]})
+        # the listing arrives on a pipe (objdump -d prog | jasm -s /dev/stdin): same report as for the file
+        api = jasmapi.run_pipeline(rules["found"], LISTING, None, all_matches=True, only_addr=True, ret="list")
+        p = subprocess.run([ch.PY, "-m", "jasm.main", "-p", "found.yaml", "-s", "/dev/stdin", "--all-matches", "--return_only_address"], cwd=d, env=env, input=LISTING, capture_output=True, text=True, timeout=120)
+        logged = [l.split("Matched address: ", 1)[1] for l in p.stderr.splitlines() if "Matched address: " in l]
+        run.count("traces_validated_against_impl")
+        if p.returncode != 0 or logged != api:
+            run.failure("cli/STDIN", f"listing piped to -s /dev/stdin: rc={p.returncode} logged={logged} api={api} stderr tail={p.stderr[-160:]!r}", {"kind": "cli", "argv": ["-p", "found.yaml", "-s", "/dev/stdin", "--all-matches", "--return_only_address"]})
         # a long match through the real terminal handler: the logged text must be the API's text, whole
         long_rule = {"pattern": [{"mov": {"times": 12}}]}
         long_listing = "".join(f"    {0x401000 + 3 * i:x}:\t48 89 c3             \tmov    %rax,%rbx\n" for i in range(30))
